@@ -26,6 +26,16 @@ def run(ctx, prefix=PREFIX):
     ctx.exhaustive = p["limit"] is None or len(edges) <= p["limit"]
     ctx.extra["model_edges"] = len(edges)
     ctx.extra["design_level_D14_counterexample"] = section.design_counterexample(ctx, p["names"], p["keys"], p["maxlen"])
+    if ctx.tier == "thorough":
+        # deeper refinement checks of the algorithm layer, model only (no replay): more names, longer sections
+        for nm, ks, ml in ((["A", "a", "B", "", "A:1"], ["A", "a", "B", "A:1", "A:2", "UNKNOWN", "Z"], 3),
+                           (["A", "", "A:1"], ["A", "A:1", "A:2", "UNKNOWN", "Z"], 4)):
+            tset = lambda xs: "{" + ", ".join('"%s"' % x for x in xs) + "}"
+            cfg = ("SPECIFICATION Spec\nCONSTANTS\n  Names = %s\n  KeyPool = %s\n  MaxLen = %d\n  MaxDepth = 0\n  Emit = FALSE\n"
+                   "ACTION_CONSTRAINT EmitEdge\nPROPERTY Refines\nINVARIANT DistinctOrKnown\nINVARIANT ResolvesInv\n"
+                   "INVARIANT CopyKeepsNames\nVIEW View\nCHECK_DEADLOCK FALSE\n" % (tset(nm), tset(ks), ml))
+            ctx.model_check("SectionAlgo", cfg, label="SectionAlgo refines Section (names=%s, MaxLen=%d), model only" % (nm, ml),
+                            workers=16, timeout=3600)
     all_traces, all_meta = [], []
     for kind in ("header", "curve"):
         t, m = section.replay_edges(ctx, edges, p["keys"], kind=kind, limit=p["limit"], rng=rng)
